@@ -80,6 +80,7 @@ def run(F, R, ctx):
                "of this kind land in different buckets, so an equal key does not find the entry" % v, h.loc(),
                sample={"hash_calls": hc.get(v, ("", []))[1]})
     union_rule(F, R)
+    fresh_storage_rule(F, R)
     cross_side_rule(F, R)
     nested_arm_rule(F, R)
     unordered_hash_rule(F, R)
@@ -741,3 +742,34 @@ def cross_kind_hash_rule(F, R):
                "cannot be looked up with the other in a hash map or set" % (a, b_, h.blocks[bad].get("line") if bad is not None else ""),
                h.loc(h.blocks[bad].get("line") if bad is not None else None), sample=True)
     R.floor("C11.g", "cross-kind comparable pairs (Custom aside)", n, 1)
+
+
+def fresh_storage_rule(F, R):
+    R.rule("C11.b", "a primitive that answers a new byte vector answers fresh storage: the handle of a mutable byte vector "
+                    "(SteelByteVector: shared, lock-protected storage) is duplicated only by cloning the value that holds it "
+                    "(<SteelVal as Clone>::clone — the same object, by design); no other function clones the handle, so every "
+                    "SteelVal::ByteVector a primitive builds comes from SteelByteVector::new. A result that shares storage with "
+                    "an argument changes when the argument is edited in place (bytes-set!, bytes-push!): the sequence it was "
+                    "answered for is no longer what it holds, and as a hash key it is lost")
+    owners = [n for n in F.fns if re.search(r"\{impl Clone for SteelByteVector\}::clone$", n)]
+    if not owners:
+        raise CheckError("anchor lost: Clone for SteelByteVector")
+    news = [n for n in F.fns if re.search(r"\{impl SteelByteVector\}::new$", n)]
+    R.inst("C11.b", "SteelByteVector::new exists (fresh storage constructor)", bool(news),
+           "SteelByteVector::new is gone (anchor changed)", nontrivial=False)
+    bad = []
+    n = 0
+    for name, fn in sorted(F.fns.items()):
+        if not name.startswith("steel::"):
+            continue
+        for _, b in fn.calls():
+            if b["callee"] in owners:
+                n += 1
+                if not re.search(r"\{impl Clone for SteelVal\}::clone$", name):
+                    bad.append((fn, b))
+    R.floor("C11.b", "clones of the byte-vector handle (the value's own Clone)", n, 1)
+    R.inst("C11.b", "only <SteelVal as Clone>::clone duplicates a byte-vector handle", not bad,
+           bad and ("%s clones the handle of a byte vector (line %s): what it builds from the clone shares storage with the value it "
+                    "was cloned from — (apply bytes-append (list chunk)) answers chunk itself, and a later (bytes-set! result 0 77) "
+                    "changes chunk too" % (bad[0][0].short(), bad[0][1].get("line"))),
+           bad[0][0].loc(bad[0][1].get("line")) if bad else "", sample=True)
